@@ -492,6 +492,24 @@ func TestPropDeep(t *testing.T) {
 			}
 		}
 	}
+	// ... and a few depths up to the limit of the reference decoder (encoding/json reads 10000 levels)
+	for _, depth := range []int{1000, 2500, 4999, 5000, 5001, 7500, 9999, 10000} {
+		for kind := 0; kind < 6; kind++ {
+			idx++
+			if !ev.Mine(idx) {
+				continue
+			}
+			s := nest(deepShape(kind, depth), []string{"1", `"s"`, "[]", "{}", "null"}[(depth+kind)%5])
+			if !json.Valid([]byte(s)) {
+				continue // (a pattern that opens more than one container per level goes beyond the decoder's limit)
+			}
+			c := Case{Text: s, Trailing: kind%2 == 1}
+			if v := judgedDeep(c); v != nil && ev.Report("deep", c, v) {
+				bad++
+			}
+			ev.Count("deep", 1)
+		}
+	}
 	if bad > 0 {
 		t.Errorf("VIOLATION-CANDIDATE deep: %d cases", bad)
 	}
